@@ -212,6 +212,29 @@ class Graph:
                 out.append(("?", cur, None, None))
         return out
 
+    def _tuple_def(self, b, local):
+        """operands of the tuple aggregate that defines `local`, if it is defined exactly once that way."""
+        cache = getattr(b, "_tupdefs", None)
+        if cache is None:
+            cache = {}
+            counts = {}
+            for blk in b.blocks:
+                for st in blk["stmts"]:
+                    if not st["dst"]["p"]:
+                        l = st["dst"]["l"]
+                        counts[l] = counts.get(l, 0) + 1
+                        rv = st["rv"]
+                        if rv.get("k") == "agg" and rv.get("ak") == "tuple":
+                            cache[l] = rv["ops"]
+            for l, n in counts.items():
+                if n != 1:
+                    cache.pop(l, None)
+            try:
+                b._tupdefs = cache
+            except AttributeError:
+                pass
+        return cache.get(local)
+
     def _place_ty(self, b, pl):
         ch = self._place_chain(b, pl)
         if ch:
@@ -372,6 +395,12 @@ class Graph:
             elif a["k"] == "const" and a.get("fn") in self.scope:
                 closures.append((a["fn"], None, False))
         sc = t.get("self_closure")
+        # `Fn::call(closure, (args..))` resolves to the closure body itself; its argument tuple must be spread over
+        # the closure's parameters, so it is not bound like an ordinary local call
+        closure_targets = [x for x in targets if self.facts.bodies[x].kind == "Closure" and sc == x]
+        if closure_targets:
+            targets = [x for x in targets if x not in closure_targets]
+            target = targets[0] if targets else None
         direct_closure = sc if (sc in self.scope and target is None) else None
         subst = [tuple(x) for x in t.get("subst", []) if x[0] != x[1]] or None
 
@@ -407,9 +436,19 @@ class Graph:
             kb = self.facts.bodies[direct_closure]
             cin = ("in", site, direct_closure)
             cout = ("out", site, direct_closure)
-            for j, a in enumerate(args):
-                for p in range(1, kb.arg_count + 1):
-                    self._read_op(b, a, (direct_closure, p), DATA, "hof", kb.locals[p]["ty"], site, cs=cin)
+            # Fn::call(closure, (a, b, c)): the argument tuple is spread over the closure's parameters _2, _3, ..
+            spread = None
+            if len(args) == 2 and arg_loc[1] is not None:
+                spread = self._tuple_def(b, arg_loc[1])
+            if spread is not None and len(spread) == kb.arg_count - 1:
+                if args[0]["k"] in ("copy", "move"):
+                    self._read_op(b, args[0], (direct_closure, 1), DATA, MOVE, kb.locals[1]["ty"], site, cs=cin)
+                for j, op in enumerate(spread):
+                    self._read_op(b, op, (direct_closure, 2 + j), DATA, MOVE, kb.locals[2 + j]["ty"], site, cs=cin)
+            else:
+                for j, a in enumerate(args):
+                    for p in range(1, kb.arg_count + 1):
+                        self._read_op(b, a, (direct_closure, p), DATA, "hof", kb.locals[p]["ty"], site, cs=cin)
             if arg_loc and arg_loc[0] is not None:
                 self.edge((direct_closure, 1), Edge((bid, arg_loc[0]), ALIAS, MOVE, None, self.lty(b, arg_loc[0]), cs=cout))
             self.edge((direct_closure, 0), Edge(d, DATA, MOVE, None, dst_ty, site=site, cs=cout))
@@ -440,7 +479,7 @@ class Graph:
                     self._read_op(b, op, OUTCOME, CTRL, SHAPE, None)
                 self.sink_sites.append((bid, i, "foreign-abort:" + name))
         for kid, l, is_closure in closures:
-            if kid in targets:
+            if kid in targets or kid == direct_closure:
                 continue
             kb = self.facts.bodies[kid]
             first = 2 if is_closure else 1
